@@ -146,8 +146,10 @@ THREADFUNC_DECL TaskScheduler::TaskingThreadFunction( void* pArgs )
         }
     }
 
-    AtomicAdd( &pTS->m_NumThreadsRunning, -1 );
+    // the decrement must be the last access to the scheduler: StopThreads() waits for
+    // it and the scheduler may be deleted right afterwards
     SafeCallback( pTS->m_ProfilerCallbacks.threadStop, threadNum );
+    AtomicAdd( &pTS->m_NumThreadsRunning, -1 );
 
     return 0;
 }
